@@ -1,11 +1,1709 @@
+// Seeded generator of type-correct Go programs in the executable subset of C01.
+//
+// Discipline that keeps every generated program's behaviour determined by the Go specification
+// (so that the gc-compiled binary is a legitimate oracle):
+//   - a statement either contains no call with side effects ("calc statement": may read anything, may
+//     panic at run time), or every operand besides its calls is "plain": constants and locals that no
+//     call can modify (never address-taken, never captured) combined with non-panicking operators;
+//     calls among themselves are ordered left to right by the specification;
+//   - append results never have an observable spare capacity obtained by growth (appendable slice
+//     variables are only appended to, indexed, measured and ranged over);
+//   - every loop is bounded (constant trip counts, a per-function fuel counter for condition loops and
+//     backward gotos); map iteration order is never observable.
 package main
 
-import "verifharness/hx"
+import (
+	"fmt"
+	"strings"
 
-type gen struct{ rnd *hx.Rand }
+	"verifharness/hx"
+)
 
-func newGen(seed uint64) *gen { return &gen{rnd: hx.NewRand(seed)} }
+type tkind int
 
+const (
+	tInt tkind = iota
+	tBool
+	tString
+	tArray
+	tSlice
+	tStruct
+	tPtr
+	tFunc
+)
+
+type ty struct {
+	k      tkind
+	name   string
+	elem   *ty
+	n      int
+	fields []*vr // struct fields
+	signed bool
+	bits   int
+	params []*ty // func
+	res    *ty
+}
+
+type vr struct {
+	name       string
+	t          *ty
+	unstable   bool // a call may modify it (global, address-taken, captured)
+	escapable  bool // local whose address may be taken / that may be captured
+	readonly   bool // loop counters
+	appendable bool // slice used only through append/index/len/range
+	fields     bool
+}
+
+type fdecl struct {
+	name   string
+	params []*ty
+	res    []*ty
+	pure   bool // no effects, never panics
+}
+
+type gen struct {
+	rnd     *hx.Rand
+	sb      strings.Builder
+	ints    []*ty
+	tInt    *ty
+	tBool   *ty
+	tStr    *ty
+	tU8     *ty
+	arrs    []*ty
+	structs []*ty
+	slInt   *ty
+	ptrInt  *ty
+	fnII    *ty
+	globals []*vr
+	funcs   []*fdecl
+	pures   []*fdecl
+	Feat    map[string]int
+	ptrs    map[string]*ty
+}
+
+func newGen(seed uint64) *gen {
+	g := &gen{rnd: hx.NewRand(seed), Feat: map[string]int{}, ptrs: map[string]*ty{}}
+	mk := func(name string, signed bool, bits int) *ty {
+		return &ty{k: tInt, name: name, signed: signed, bits: bits}
+	}
+	g.tInt = mk("int", true, 64)
+	g.tU8 = mk("uint8", false, 8)
+	g.ints = []*ty{g.tInt, mk("int8", true, 8), g.tU8, mk("int32", true, 32), mk("uint", false, 64), mk("uint16", false, 16), mk("int64", true, 64)}
+	g.tBool = &ty{k: tBool, name: "bool"}
+	g.tStr = &ty{k: tString, name: "string"}
+	g.slInt = &ty{k: tSlice, name: "[]int", elem: g.tInt}
+	g.ptrInt = &ty{k: tPtr, name: "*int", elem: g.tInt}
+	g.fnII = &ty{k: tFunc, name: "func(int) int", params: []*ty{g.tInt}, res: g.tInt}
+	return g
+}
+
+func (g *gen) pick(n int) int    { return g.rnd.Intn(n) }
+func (g *gen) chance(p int) bool { return g.rnd.Chance(p) }
+
+func (g *gen) arrayOf(e *ty, n int) *ty {
+	name := fmt.Sprintf("[%d]%s", n, e.name)
+	for _, a := range g.arrs {
+		if a.name == name {
+			return a
+		}
+	}
+	a := &ty{k: tArray, name: name, elem: e, n: n}
+	g.arrs = append(g.arrs, a)
+	return a
+}
+
+func (g *gen) ptrTo(t *ty) *ty {
+	if t == g.tInt {
+		return g.ptrInt
+	}
+	if p, ok := g.ptrs[t.name]; ok {
+		return p
+	}
+	p := &ty{k: tPtr, name: "*" + t.name, elem: t}
+	g.ptrs[t.name] = p
+	return p
+}
+
+// Program generates one program.
 func (g *gen) Program() string {
-	return "package main\n\nfunc F0(x int) int { return x + 1 }\n"
+	w := &g.sb
+	w.WriteString("package main\n\n")
+	// struct types
+	ns := 1 + g.pick(2)
+	for i := 0; i < ns; i++ {
+		st := &ty{k: tStruct, name: fmt.Sprintf("S%d", i)}
+		nf := 2 + g.pick(3)
+		for j := 0; j < nf; j++ {
+			var ft *ty
+			switch g.pick(8) {
+			case 0, 1, 2:
+				ft = g.tInt
+			case 3:
+				ft = g.ints[g.pick(len(g.ints))]
+			case 4:
+				ft = g.tStr
+			case 5:
+				ft = g.tBool
+			case 6:
+				ft = g.arrayOf(g.tInt, 2+g.pick(2))
+			case 7:
+				if i > 0 {
+					ft = g.structs[0]
+				} else {
+					ft = g.ptrInt
+				}
+			}
+			st.fields = append(st.fields, &vr{name: fmt.Sprintf("f%d", j), t: ft})
+		}
+		g.structs = append(g.structs, st)
+		fmt.Fprintf(w, "type %s struct {\n", st.name)
+		for _, f := range st.fields {
+			fmt.Fprintf(w, "\t%s %s\n", f.name, f.t.name)
+		}
+		w.WriteString("}\n\n")
+	}
+	// globals
+	gts := []*ty{g.tInt, g.tInt, g.arrayOf(g.tInt, 4), g.structs[0], g.tStr, g.slInt, g.ints[1+g.pick(len(g.ints)-1)]}
+	for i, t := range gts {
+		v := &vr{name: fmt.Sprintf("g%d", i), t: t, unstable: true}
+		g.globals = append(g.globals, v)
+		if t.k == tInt && g.chance(50) {
+			fmt.Fprintf(w, "var %s %s = %d\n", v.name, t.name, g.pick(5))
+		} else if t.k == tArray && g.chance(50) {
+			fmt.Fprintf(w, "var %s = %s{1, 2}\n", v.name, t.name)
+		} else {
+			fmt.Fprintf(w, "var %s %s\n", v.name, t.name)
+		}
+	}
+	w.WriteString("var gp *int\n\n")
+	w.WriteString("func esc(p *int) { gp = p }\n\nfunc poke(v int) {\n\tif gp != nil {\n\t\t*gp = v\n\t}\n}\n\nfunc peek() int {\n\tif gp != nil {\n\t\treturn *gp\n\t}\n\treturn -1\n}\n\n")
+	w.WriteString("func bump(p *int, d int) int {\n\t*p += d\n\treturn *p\n}\n\n")
+	w.WriteString("func at(s []int, i int) int {\n\tif len(s) == 0 {\n\t\treturn 0\n\t}\n\treturn s[uint(i)%uint(len(s))]\n}\n\n")
+	w.WriteString("func sidx(s string, i int) byte {\n\tif len(s) == 0 {\n\t\treturn 0\n\t}\n\treturn s[uint(i)%uint(len(s))]\n}\n\n")
+	g.funcs = append(g.funcs,
+		&fdecl{name: "poke", params: []*ty{g.tInt}},
+		&fdecl{name: "peek", res: []*ty{g.tInt}},
+	)
+	// pure helpers
+	np := 1 + g.pick(2)
+	for i := 0; i < np; i++ {
+		fd := &fdecl{name: fmt.Sprintf("h%d", i), pure: true, res: []*ty{g.tInt}}
+		n := 1 + g.pick(2)
+		fg := g.newFgen(fd)
+		var ps []string
+		for j := 0; j < n; j++ {
+			t := g.tInt
+			if g.chance(25) {
+				t = g.ints[g.pick(len(g.ints))]
+			}
+			fd.params = append(fd.params, t)
+			v := &vr{name: fmt.Sprintf("a%d", j), t: t}
+			fg.declare(v)
+			ps = append(ps, v.name+" "+t.name)
+		}
+		fmt.Fprintf(w, "func %s(%s) int {\n", fd.name, strings.Join(ps, ", "))
+		if g.chance(50) {
+			fmt.Fprintf(w, "\tif %s {\n\t\treturn %s\n\t}\n", fg.expr(g.tBool, 2, true), fg.expr(g.tInt, 2, true))
+		}
+		fmt.Fprintf(w, "\treturn %s\n}\n\n", fg.expr(g.tInt, 3, true))
+		g.pures = append(g.pures, fd)
+	}
+	// test functions
+	nf := 3 + g.pick(3)
+	for i := 0; i < nf; i++ {
+		g.function(i)
+	}
+	return w.String()
+}
+
+// ---------------------------------------------------------------- function generator
+
+type label struct {
+	name   string
+	used   bool
+	isLoop bool
+}
+
+type fgen struct {
+	g        *gen
+	fd       *fdecl
+	w        *strings.Builder
+	ind      int
+	scopes   [][]*vr
+	nvar     int
+	nlabel   int
+	loops    []*label // enclosing loops (innermost last); name "" = unlabelled
+	fwd      []*label // forward goto targets in scope
+	inSwitch int      // nesting of switch statements inside the innermost loop
+	depth    int
+	budget   int
+	results  []*vr // named results (if any)
+	hasFuel  bool
+	guard    string // condition under which the lvalue just generated is valid
+	closures []*vr
+}
+
+func (g *gen) newFgen(fd *fdecl) *fgen {
+	return &fgen{g: g, fd: fd, scopes: [][]*vr{nil}, budget: 40, w: &strings.Builder{}}
+}
+
+func (f *fgen) declare(v *vr) { f.scopes[len(f.scopes)-1] = append(f.scopes[len(f.scopes)-1], v) }
+func (f *fgen) push()         { f.scopes = append(f.scopes, nil) }
+func (f *fgen) pop()          { f.scopes = f.scopes[:len(f.scopes)-1] }
+
+func (f *fgen) line(format string, a ...any) {
+	f.w.WriteString(strings.Repeat("\t", f.ind))
+	fmt.Fprintf(f.w, format, a...)
+	f.w.WriteString("\n")
+}
+
+func (f *fgen) fresh(prefix string) string {
+	f.nvar++
+	return fmt.Sprintf("%s%d", prefix, f.nvar)
+}
+
+// vars returns the visible variables satisfying pred (locals, then globals unless plain)
+func (f *fgen) vars(plain bool, pred func(*vr) bool) []*vr {
+	var res []*vr
+	for _, sc := range f.scopes {
+		for _, v := range sc {
+			if plain && v.unstable {
+				continue
+			}
+			if pred(v) {
+				res = append(res, v)
+			}
+		}
+	}
+	if !plain && !f.fd.pure {
+		for _, v := range f.g.globals {
+			if pred(v) {
+				res = append(res, v)
+			}
+		}
+	}
+	return res
+}
+
+func (f *fgen) pickVar(plain bool, pred func(*vr) bool) *vr {
+	vs := f.vars(plain, pred)
+	if len(vs) == 0 {
+		return nil
+	}
+	// prefer locals and parameters over globals
+	nl := 0
+	for _, v := range vs {
+		if !strings.HasPrefix(v.name, "g") {
+			nl++
+		}
+	}
+	if nl > 0 && nl < len(vs) && f.g.chance(65) {
+		return vs[f.g.pick(nl)]
+	}
+	return vs[f.g.pick(len(vs))]
+}
+
+// nonConstInt: an int expression that depends on at least one variable
+func (f *fgen) nonConstInt(d int) string {
+	g := f.g
+	v := f.pickVar(false, func(v *vr) bool { return v.t.k == tInt })
+	if v == nil {
+		return "len(g4)"
+	}
+	e := v.name
+	if v.t != g.tInt {
+		e = "int(" + e + ")"
+	}
+	if d <= 0 || g.chance(30) {
+		return e
+	}
+	ops := []string{"+", "-", "^", "&", "|"}
+	return fmt.Sprintf("(%s %s %s)", e, ops[g.pick(len(ops))], f.intExpr(g.tInt, d-1, false))
+}
+
+func (g *gen) intConst(t *ty) string {
+	pool := []int64{0, 1, 2, 3, 4, 5, 7, 8, 10, 15, 16, 31, 100, 127, 128, 255, 1000}
+	v := pool[g.pick(len(pool))]
+	if g.chance(20) && t.signed {
+		v = -v
+	}
+	// fit
+	if t.bits < 64 {
+		lim := int64(1) << (t.bits - 1)
+		if !t.signed {
+			lim = int64(1) << t.bits
+			if v < 0 {
+				v = -v
+			}
+		}
+		for v >= lim || v <= -lim {
+			v /= 2
+		}
+	}
+	if !t.signed && v < 0 {
+		v = -v
+	}
+	if v < 0 {
+		return fmt.Sprintf("(%d)", v)
+	}
+	return fmt.Sprint(v)
+}
+
+var strConsts = []string{`""`, `"a"`, `"go"`, `"xyz"`, `"hello"`, `"hé"`, `"\xffz"`, `"日本語"`}
+
+// expr generates an expression of type t without side-effecting calls.
+// plain: only operands no call can change and only operators that cannot panic.
+func (f *fgen) expr(t *ty, d int, plain bool) string {
+	g := f.g
+	switch t.k {
+	case tInt:
+		return f.intExpr(t, d, plain)
+	case tBool:
+		if d <= 0 || g.chance(15) {
+			if v := f.pickVar(plain, func(v *vr) bool { return v.t == t }); v != nil && g.chance(50) {
+				return v.name
+			}
+			if v := f.pickVar(plain, func(v *vr) bool { return v.t.k == tInt }); v != nil && g.chance(92) {
+				ops := []string{"<", "<=", ">", ">=", "==", "!="}
+				return fmt.Sprintf("%s %s %s", v.name, ops[g.pick(len(ops))], g.intConst(v.t))
+			}
+			if g.chance(50) {
+				return "true"
+			}
+			return "false"
+		}
+		switch g.pick(7) {
+		case 0, 1, 2:
+			it := g.tInt
+			if g.chance(30) {
+				it = g.ints[g.pick(len(g.ints))]
+			}
+			ops := []string{"<", "<=", ">", ">=", "==", "!="}
+			return fmt.Sprintf("%s %s %s", f.expr(it, d-1, plain), ops[g.pick(len(ops))], f.expr(it, d-1, plain))
+		case 3:
+			return fmt.Sprintf("(%s && %s)", f.expr(t, d-1, plain), f.expr(t, d-1, plain))
+		case 4:
+			return fmt.Sprintf("(%s || %s)", f.expr(t, d-1, plain), f.expr(t, d-1, plain))
+		case 5:
+			return fmt.Sprintf("!(%s)", f.expr(t, d-1, plain))
+		default:
+			ops := []string{"<", "==", "!=", ">="}
+			return fmt.Sprintf("%s %s %s", f.expr(g.tStr, d-1, plain), ops[g.pick(len(ops))], f.expr(g.tStr, d-1, plain))
+		}
+	case tString:
+		if d <= 0 || g.chance(30) {
+			if v := f.pickVar(plain, func(v *vr) bool { return v.t == t }); v != nil && g.chance(70) {
+				return v.name
+			}
+			return strConsts[g.pick(len(strConsts))]
+		}
+		switch g.pick(6) {
+		case 0, 1:
+			return fmt.Sprintf("(%s + %s)", f.expr(t, d-1, plain), f.expr(t, d-1, plain))
+		case 2:
+			if !plain {
+				// slicing with clamped bounds never panics; raw bounds may
+				if v := f.pickVar(false, func(v *vr) bool { return v.t == t }); v != nil {
+					if g.chance(92) {
+						return fmt.Sprintf("%s[min(%s, len(%s)):]", v.name, f.smallNat(d-1, plain), v.name)
+					}
+					return fmt.Sprintf("%s[%s:]", v.name, f.smallNat(d-1, plain))
+				}
+			}
+			return strConsts[g.pick(len(strConsts))]
+		case 3:
+			return fmt.Sprintf("string(rune(%s))", f.expr(g.tInt, d-1, plain))
+		case 4:
+			if !plain {
+				if v := f.pickVar(false, func(v *vr) bool { return v.t.k == tStruct && hasField(v.t, t) }); v != nil {
+					return v.name + "." + fieldOf(g, v.t, t)
+				}
+			}
+			return strConsts[g.pick(len(strConsts))]
+		default:
+			if v := f.pickVar(plain, func(v *vr) bool { return v.t == t }); v != nil {
+				return v.name
+			}
+			return strConsts[g.pick(len(strConsts))]
+		}
+	case tArray, tStruct, tSlice, tPtr, tFunc:
+		if v := f.pickVar(plain, func(v *vr) bool { return v.t == t && !v.appendable }); v != nil && (d <= 0 || g.chance(60)) {
+			return v.name
+		}
+		return f.literal(t, d, plain)
+	}
+	panic("expr: " + t.name)
+}
+
+func hasField(st *ty, t *ty) bool {
+	for _, fl := range st.fields {
+		if fl.t == t {
+			return true
+		}
+	}
+	return false
+}
+
+func fieldOf(g *gen, st *ty, t *ty) string {
+	var c []string
+	for _, fl := range st.fields {
+		if fl.t == t {
+			c = append(c, fl.name)
+		}
+	}
+	return c[g.pick(len(c))]
+}
+
+func (f *fgen) literal(t *ty, d int, plain bool) string {
+	g := f.g
+	switch t.k {
+	case tArray:
+		var es []string
+		n := g.pick(t.n + 1)
+		for i := 0; i < n; i++ {
+			es = append(es, f.expr(t.elem, d-1, plain))
+		}
+		return t.name + "{" + strings.Join(es, ", ") + "}"
+	case tStruct:
+		var es []string
+		for _, fl := range t.fields {
+			if g.chance(60) {
+				es = append(es, fl.name+": "+f.expr(fl.t, d-1, plain))
+			}
+		}
+		return t.name + "{" + strings.Join(es, ", ") + "}"
+	case tSlice:
+		if g.chance(15) {
+			return t.name + "(nil)"
+		}
+		var es []string
+		n := g.pick(4)
+		for i := 0; i < n; i++ {
+			es = append(es, f.expr(t.elem, d-1, plain))
+		}
+		return t.name + "{" + strings.Join(es, ", ") + "}"
+	case tPtr:
+		if !plain {
+			if v := f.pickVar(false, func(v *vr) bool { return v.t == t.elem && v.escapable }); v != nil {
+				return "&" + v.name
+			}
+		}
+		if g.chance(85) {
+			return "new(" + t.elem.name + ")"
+		}
+		return "(" + t.name + ")(nil)"
+	case tFunc:
+		return "(" + t.name + ")(nil)"
+	}
+	return f.expr(t, 0, plain)
+}
+
+// smallNat: a small non-negative int expression (never a negative constant)
+func (f *fgen) smallNat(d int, plain bool) string {
+	g := f.g
+	if d <= 0 || g.chance(40) {
+		return fmt.Sprint(g.pick(5))
+	}
+	return fmt.Sprintf("int(%s %% %d)", f.uintOf(d-1, plain), 2+g.pick(5))
+}
+
+// uintOf: uint(<int expression>) where a constant operand is never negative
+func (f *fgen) uintOf(d int, plain bool) string {
+	e, c := f.intE(f.g.tInt, d, plain)
+	if c {
+		return fmt.Sprintf("uint(%d)", f.g.pick(9))
+	}
+	return "uint(" + e + ")"
+}
+
+func (f *fgen) intExpr(t *ty, d int, plain bool) string {
+	e, _ := f.intE(t, d, plain)
+	return e
+}
+
+func (f *fgen) intLeaf(t *ty, plain bool) (string, bool) {
+	g := f.g
+	if v := f.pickVar(plain, func(v *vr) bool { return v.t == t }); v != nil && g.chance(75) {
+		return v.name, false
+	}
+	return t.name + "(" + g.intConst(t) + ")", true
+}
+
+// intE returns an integer expression and whether it is a constant expression (constant expressions
+// are kept to single literals: folded constants may overflow, which is a compile-time error)
+func (f *fgen) intE(t *ty, d int, plain bool) (string, bool) {
+	g := f.g
+	if d <= 0 || g.chance(12) {
+		return f.intLeaf(t, plain)
+	}
+	n := 16
+	if plain {
+		n = 9
+	}
+	switch g.pick(n) {
+	case 0, 1, 2:
+		ops := []string{"+", "-", "*", "+", "-", "&", "|", "^", "&^"}
+		a, ca := f.intE(t, d-1, plain)
+		b, cb := f.intE(t, d-1, plain)
+		if ca && cb {
+			return a, true
+		}
+		return fmt.Sprintf("(%s %s %s)", a, ops[g.pick(len(ops))], b), false
+	case 3:
+		return f.intLeaf(t, plain)
+	case 4:
+		// conversion from another integer type
+		o := g.ints[g.pick(len(g.ints))]
+		a, ca := f.intE(o, d-1, plain)
+		if ca {
+			return f.intLeaf(t, plain)
+		}
+		return fmt.Sprintf("%s(%s)", t.name, a), false
+	case 5:
+		op := "<<"
+		if g.chance(50) {
+			op = ">>"
+		}
+		a, ca := f.intE(t, d-1, plain)
+		if ca {
+			return a, true
+		}
+		return fmt.Sprintf("(%s %s (%s & %d))", a, op, f.uintOf(d-1, plain), []int{3, 7, 15, 63, 127}[g.pick(5)]), false
+	case 6:
+		a, ca := f.intE(t, d-1, plain)
+		if ca {
+			return a, true
+		}
+		if g.chance(50) {
+			return fmt.Sprintf("(-%s)", a), false
+		}
+		return fmt.Sprintf("(^%s)", a), false
+	case 7:
+		// len of something visible
+		if v := f.pickVar(plain, func(v *vr) bool { return v.t.k == tString || v.t.k == tSlice }); v != nil {
+			if t == g.tInt {
+				return "len(" + v.name + ")", false
+			}
+			return t.name + "(len(" + v.name + "))", false
+		}
+		return f.intLeaf(t, plain)
+	case 8:
+		if len(g.pures) > 0 && t == g.tInt {
+			h := g.pures[g.pick(len(g.pures))]
+			if h != f.fd {
+				var as []string
+				for _, p := range h.params {
+					as = append(as, f.intExpr(p, d-1, plain))
+				}
+				return fmt.Sprintf("%s(%s)", h.name, strings.Join(as, ", ")), false
+			}
+		}
+		a, ca := f.intE(t, d-1, plain)
+		b, cb := f.intE(t, d-1, plain)
+		if ca && cb {
+			return a, true
+		}
+		fn := "min"
+		if g.chance(50) {
+			fn = "max"
+		}
+		return fmt.Sprintf("%s(%s, %s)", fn, a, b), false
+	// ---- below: may panic / reads memory calls can change
+	case 9:
+		op := "/"
+		if g.chance(50) {
+			op = "%"
+		}
+		a, ca := f.intE(t, d-1, plain)
+		den, cd := f.intE(t, d-1, plain)
+		if ca && cd {
+			return a, true
+		}
+		if cd || g.chance(93) {
+			den = "(" + den + " | 1)"
+		}
+		if v := f.pickVar(false, func(v *vr) bool { return v.t == t }); v != nil && cd {
+			den = "(" + v.name + " | 1)"
+		}
+		return fmt.Sprintf("(%s %s %s)", a, op, den), false
+	case 10:
+		// array / slice element
+		if v := f.pickVar(false, func(v *vr) bool { return (v.t.k == tArray || v.t.k == tSlice) && v.t.elem == t }); v != nil {
+			if v.t.k == tSlice && t == g.tInt && g.chance(88) {
+				return fmt.Sprintf("at(%s, %s)", v.name, f.intExpr(g.tInt, d-1, false)), false
+			}
+			return fmt.Sprintf("%s[%s]", v.name, f.index(v, d-1)), false
+		}
+		return f.intE(t, d-1, plain)
+	case 11:
+		// pointer dereference
+		if v := f.pickVar(false, func(v *vr) bool { return v.t.k == tPtr && v.t.elem == t }); v != nil {
+			return "*" + v.name, false
+		}
+		return f.intE(t, d-1, plain)
+	case 12:
+		// struct field (through value or pointer)
+		if v := f.pickVar(false, func(v *vr) bool {
+			st := v.t
+			if st.k == tPtr {
+				st = st.elem
+			}
+			return st.k == tStruct && hasField(st, t)
+		}); v != nil {
+			st := v.t
+			if st.k == tPtr {
+				st = st.elem
+			}
+			return v.name + "." + fieldOf(g, st, t), false
+		}
+		return f.intE(t, d-1, plain)
+	case 13:
+		// string byte
+		if v := f.pickVar(false, func(v *vr) bool { return v.t.k == tString }); v != nil {
+			if g.chance(45) {
+				return fmt.Sprintf("%s(sidx(%s, %s))", t.name, v.name, f.intExpr(g.tInt, d-1, false)), false
+			}
+			if g.chance(10) {
+				return fmt.Sprintf("%s(%s[%s])", t.name, v.name, f.smallNat(d-1, plain)), false
+			}
+			return fmt.Sprintf("%s(len(%s))", t.name, v.name), false
+		}
+		return f.intE(t, d-1, plain)
+	case 14:
+		if v := f.pickVar(false, func(v *vr) bool { return v.t.k == tSlice && !v.appendable }); v != nil && t == g.tInt {
+			return "cap(" + v.name + ")", false
+		}
+		return f.intE(t, d-1, plain)
+	default:
+		if v := f.pickVar(false, func(v *vr) bool { return v.t == t && v.unstable }); v != nil {
+			return v.name, false
+		}
+		return f.intE(t, d-1, plain)
+	}
+}
+
+// index expression for array/slice variable v: mostly in range; never a constant out of range
+func (f *fgen) index(v *vr, d int) string {
+	g := f.g
+	if v.t.k == tArray {
+		e, c := f.intE(g.tInt, d, false)
+		if c || g.chance(95) {
+			return fmt.Sprintf("%s %% %d", f.uintOf(d, false), v.t.n)
+		}
+		return e
+	}
+	e, c := f.intE(g.tInt, d, false)
+	if c || g.chance(50) {
+		return fmt.Sprint(g.pick(3))
+	}
+	return e
+}
+
+// plainIndex for array variable (cannot panic, plain operands)
+func (f *fgen) plainIndex(n int) string {
+	return fmt.Sprintf("%s %% %d", f.uintOf(1, true), n)
+}
+
+// a boolean expression that is not a constant expression
+func (f *fgen) nonConstBool(d int) string {
+	g := f.g
+	ops := []string{"<", "<=", ">", ">=", "==", "!="}
+	v := f.pickVar(false, func(v *vr) bool { return v.t.k == tInt })
+	if v == nil {
+		return "len(g4) " + ops[g.pick(len(ops))] + " " + fmt.Sprint(g.pick(4))
+	}
+	return fmt.Sprintf("%s %s %s", v.name, ops[g.pick(len(ops))], f.intExpr(v.t, d, false))
+}
+
+// ---------------------------------------------------------------- statements
+
+func (f *fgen) block(n int) {
+	f.push()
+	f.ind++
+	f.depth++
+	for i := 0; i < n && f.budget > 0; i++ {
+		f.stmt()
+	}
+	f.depth--
+	f.ind--
+	f.pop()
+}
+
+// an impure call expression with plain arguments; returns expression and its result types
+func (f *fgen) callExpr() (string, []*ty) {
+	g := f.g
+	// candidates: earlier test functions, poke/peek, closures in scope, bump on escapable
+	type cand struct {
+		s   string
+		res []*ty
+	}
+	var cs []cand
+	for _, fd := range g.funcs {
+		if fd == f.fd {
+			continue
+		}
+		var as []string
+		ok := true
+		for _, p := range fd.params {
+			switch p.k {
+			case tInt, tBool, tString:
+				as = append(as, f.expr(p, 1, true))
+			case tPtr:
+				if v := f.pickVar(false, func(v *vr) bool { return v.t == p.elem && v.escapable }); v != nil && g.chance(70) {
+					as = append(as, "&"+v.name)
+				} else if v := f.pickVar(true, func(v *vr) bool { return v.t == p }); v != nil {
+					as = append(as, v.name)
+				} else {
+					as = append(as, "new("+p.elem.name+")")
+				}
+			case tSlice:
+				if v := f.pickVar(true, func(v *vr) bool { return v.t == p && !v.appendable }); v != nil {
+					as = append(as, v.name)
+				} else {
+					as = append(as, p.name+"{1, 2, 3}")
+				}
+			case tArray, tStruct:
+				if v := f.pickVar(true, func(v *vr) bool { return v.t == p }); v != nil {
+					as = append(as, v.name)
+				} else {
+					as = append(as, p.name+"{}")
+				}
+			default:
+				ok = false
+			}
+		}
+		if ok {
+			cs = append(cs, cand{fmt.Sprintf("%s(%s)", fd.name, strings.Join(as, ", ")), fd.res})
+		}
+	}
+	for _, c := range f.vars(false, func(v *vr) bool { return v.t == g.fnII && v.fields }) {
+		cs = append(cs, cand{fmt.Sprintf("%s(%s)", c.name, f.expr(g.tInt, 1, true)), []*ty{g.tInt}})
+	}
+	if v := f.pickVar(false, func(v *vr) bool { return v.t == g.tInt && v.escapable }); v != nil {
+		cs = append(cs, cand{fmt.Sprintf("bump(&%s, %s)", v.name, f.expr(g.tInt, 1, true)), []*ty{g.tInt}})
+	}
+	c := cs[g.pick(len(cs))]
+	return c.s, c.res
+}
+
+func (f *fgen) newLocal(t *ty, init string) *vr {
+	v := &vr{name: f.fresh("v"), t: t}
+	if (t.k == tInt || t.k == tStruct || t.k == tArray) && f.g.chance(35) {
+		v.escapable = true
+		v.unstable = true
+	}
+	f.line("%s := %s", v.name, init)
+	f.line("_ = %s", v.name)
+	f.declare(v)
+	return v
+}
+
+func (f *fgen) randType() *ty {
+	g := f.g
+	switch g.pick(12) {
+	case 0, 1, 2, 3:
+		return g.tInt
+	case 4:
+		return g.ints[g.pick(len(g.ints))]
+	case 5:
+		return g.tBool
+	case 6:
+		return g.tStr
+	case 7:
+		return g.arrayOf(g.tInt, 2+g.pick(3))
+	case 8:
+		return g.structs[g.pick(len(g.structs))]
+	case 9:
+		return g.slInt
+	case 10:
+		return g.ptrInt
+	default:
+		return g.tInt
+	}
+}
+
+// assignable int lvalue in a calc statement
+func (f *fgen) lvalue(t *ty) string {
+	g := f.g
+	for try := 0; try < 4; try++ {
+		switch g.pick(6) {
+		case 0, 1, 2:
+			if v := f.pickVar(false, func(v *vr) bool { return v.t == t && !v.readonly }); v != nil {
+				return v.name
+			}
+		case 3:
+			if v := f.pickVar(false, func(v *vr) bool { return (v.t.k == tArray || v.t.k == tSlice) && v.t.elem == t }); v != nil {
+				if v.t.k == tSlice && g.chance(90) {
+					k := g.pick(3)
+					f.guard = fmt.Sprintf("len(%s) > %d", v.name, k)
+					return fmt.Sprintf("%s[%d]", v.name, k)
+				}
+				return fmt.Sprintf("%s[%s]", v.name, f.index(v, 1))
+			}
+		case 4:
+			if v := f.pickVar(false, func(v *vr) bool {
+				st := v.t
+				if st.k == tPtr {
+					st = st.elem
+				}
+				return st.k == tStruct && hasField(st, t)
+			}); v != nil {
+				st := v.t
+				if st.k == tPtr {
+					st = st.elem
+				}
+				return v.name + "." + fieldOf(g, st, t)
+			}
+		case 5:
+			if v := f.pickVar(false, func(v *vr) bool { return v.t.k == tPtr && v.t.elem == t }); v != nil {
+				if g.chance(85) {
+					f.guard = v.name + " != nil"
+				}
+				return "*" + v.name
+			}
+		}
+	}
+	return "_"
+}
+
+// plain lvalue for call statements: local variable no call can observe, or field/element of one
+func (f *fgen) plainLvalue(t *ty) string { return f.plainLv(t, false) }
+
+func (f *fgen) plainLv(t *ty, strict bool) string {
+	g := f.g
+	if !strict && g.chance(15) {
+		if v := f.pickVar(false, func(v *vr) bool { return v.t == t && !v.readonly }); v != nil {
+			return v.name // globals / escapable locals: assignment happens after the calls
+		}
+	}
+	if g.chance(25) {
+		if v := f.pickVar(true, func(v *vr) bool { return v.t.k == tArray && v.t.elem == t }); v != nil {
+			return fmt.Sprintf("%s[%s]", v.name, f.plainIndex(v.t.n))
+		}
+	}
+	if g.chance(20) {
+		if v := f.pickVar(true, func(v *vr) bool { return v.t.k == tStruct && hasField(v.t, t) }); v != nil {
+			return v.name + "." + fieldOf(g, v.t, t)
+		}
+	}
+	if v := f.pickVar(true, func(v *vr) bool { return v.t == t && !v.readonly }); v != nil {
+		return v.name
+	}
+	return "_"
+}
+
+func (f *fgen) useFuel() string {
+	f.hasFuel = true
+	return "fuel"
+}
+
+func (f *fgen) stmt() {
+	g := f.g
+	f.budget--
+	deep := f.depth >= 3
+	for {
+		k := g.pick(40)
+		switch {
+		case k < 5: // declaration
+			t := f.randType()
+			f.newLocal(t, f.expr(t, 2, false))
+			g.Feat["decl"]++
+			return
+		case k < 10: // assignment (calc)
+			t := g.tInt
+			if g.chance(30) {
+				t = f.randType()
+			}
+			if t.k == tInt {
+				f.guard = ""
+				lv := f.lvalue(t)
+				if f.guard != "" {
+					f.line("if %s {", f.guard)
+					f.ind++
+					defer func() { f.ind--; f.line("}") }()
+					f.guard = ""
+				}
+				if lv == "_" {
+					f.line("_ = %s", f.expr(t, 2, false))
+				} else if g.chance(35) {
+					ops := []string{"+=", "-=", "*=", "|=", "&=", "^="}
+					f.line("%s %s %s", lv, ops[g.pick(len(ops))], f.expr(t, 2, false))
+					g.Feat["opassign"]++
+				} else if g.chance(15) {
+					f.line("%s++", lv)
+				} else {
+					f.line("%s = %s", lv, f.expr(t, 3, false))
+				}
+			} else if v := f.pickVar(false, func(v *vr) bool { return v.t == t && !v.readonly && !v.appendable }); v != nil {
+				f.line("%s = %s", v.name, f.expr(t, 2, false))
+			} else {
+				continue
+			}
+			g.Feat["assign"]++
+			return
+		case k < 13: // emit
+			switch g.pick(4) {
+			case 0:
+				f.line("emits(%d, %s)", g.pick(9), f.expr(g.tStr, 2, false))
+			case 1:
+				f.line("emitb(%d, %s)", g.pick(9), f.expr(g.tBool, 2, false))
+			default:
+				f.line("emit(%d, %s)", g.pick(9), f.expr(g.tInt, 2, false))
+			}
+			g.Feat["emit"]++
+			return
+		case k < 17: // call statement
+			f.callStmt()
+			return
+		case k < 20 && !deep: // if
+			f.ifStmt()
+			return
+		case k < 23 && !deep: // for
+			f.forStmt()
+			return
+		case k < 25 && !deep: // range
+			f.rangeStmt()
+			return
+		case k < 27 && !deep: // switch
+			f.switchStmt()
+			return
+		case k < 28: // break/continue
+			if len(f.loops) == 0 {
+				continue
+			}
+			l := f.loops[g.pick(len(f.loops))]
+			kw := "break"
+			if g.chance(50) {
+				kw = "continue"
+			}
+			inner := l == f.loops[len(f.loops)-1]
+			if inner && (kw == "continue" || f.inSwitch == 0) && g.chance(60) {
+				f.line("if %s {", f.expr(g.tBool, 2, false))
+				f.line("\t%s", kw)
+				f.line("}")
+			} else {
+				l.used = true
+				f.line("if %s {", f.expr(g.tBool, 2, false))
+				f.line("\t%s %s", kw, l.name)
+				f.line("}")
+				g.Feat["labelled-"+kw]++
+			}
+			return
+		case k < 29: // forward goto
+			if len(f.fwd) == 0 {
+				continue
+			}
+			l := f.fwd[g.pick(len(f.fwd))]
+			l.used = true
+			f.line("if %s {", f.expr(g.tBool, 2, false))
+			f.line("\tgoto %s", l.name)
+			f.line("}")
+			g.Feat["goto-forward"]++
+			return
+		case k < 30 && !deep: // goto region
+			f.gotoRegion()
+			return
+		case k < 31 && !deep: // backward goto loop
+			f.backwardGoto()
+			return
+		case k < 32: // early return
+			if f.depth == 0 {
+				continue
+			}
+			f.line("if %s {", f.expr(g.tBool, 2, false))
+			f.ind++
+			f.ret()
+			f.ind--
+			f.line("}")
+			g.Feat["early-return"]++
+			return
+		case k < 33: // explicit panic
+			pv := "g0"
+			if v := f.pickVar(false, func(v *vr) bool { return v.t == g.tInt }); v != nil {
+				pv = v.name
+			}
+			f.line("if %s == %d && %s {", pv, g.pick(6), f.expr(g.tBool, 1, false))
+			if g.chance(50) {
+				f.line("\tpanic(%d)", g.pick(100))
+			} else {
+				f.line("\tpanic(%s)", strConsts[1+g.pick(4)])
+			}
+			f.line("}")
+			g.Feat["panic"]++
+			return
+		case k < 35: // escape patterns
+			f.escapeStmt()
+			return
+		case k < 37: // closure
+			f.closureStmt()
+			return
+		case k < 39: // slices
+			f.sliceStmt()
+			return
+		default: // multi-assign / swap
+			a := f.pickVar(false, func(v *vr) bool { return v.t == g.tInt && !v.readonly })
+			b := f.pickVar(false, func(v *vr) bool { return v.t == g.tInt && !v.readonly })
+			if a == nil || b == nil || a == b {
+				continue
+			}
+			f.line("%s, %s = %s, %s", a.name, b.name, f.expr(g.tInt, 2, false), a.name)
+			g.Feat["multi-assign"]++
+			return
+		}
+	}
+}
+
+func (f *fgen) callStmt() {
+	g := f.g
+	c, res := f.callExpr()
+	g.Feat["call"]++
+	switch len(res) {
+	case 0:
+		f.line("%s", c)
+	case 1:
+		t := res[0]
+		switch g.pick(6) {
+		case 0:
+			f.newLocal(t, c)
+		case 1:
+			if t.k == tInt {
+				// two calls in one expression: ordered left to right
+				c2, r2 := f.callExpr()
+				if len(r2) == 1 && r2[0] == t {
+					f.line("%s = %s - %s", f.plainLvalue(t), c, c2)
+					g.Feat["two-calls"]++
+					return
+				}
+			}
+			f.line("%s = %s", f.plainLvalue(t), c)
+		case 2:
+			if t.k == tInt {
+				lv := f.plainLv(t, true)
+				if lv != "_" {
+					f.line("%s += %s", lv, c)
+					g.Feat["opassign-call"]++
+					return
+				}
+			}
+			f.line("_ = %s", c)
+		case 3:
+			if t.k == tInt {
+				// call results as index and value of an element assignment
+				if v := f.pickVar(true, func(v *vr) bool { return v.t.k == tArray && v.t.elem == t }); v != nil {
+					c2, r2 := f.callExpr()
+					if len(r2) == 1 && r2[0] == t {
+						op := "="
+						if g.chance(50) {
+							op = "+="
+						}
+						f.line("%s[uint(%s)%%%d] %s %s", v.name, c, v.t.n, op, c2)
+						g.Feat["index-call-assign"]++
+						return
+					}
+				}
+			}
+			f.line("%s = %s", f.plainLvalue(t), c)
+		case 4:
+			if t.k == tInt {
+				f.line("if %s > %s {", c, f.expr(t, 1, true))
+				f.block(1 + g.pick(2))
+				f.line("}")
+				return
+			}
+			f.line("_ = %s", c)
+		default:
+			f.line("%s = %s", f.plainLvalue(t), c)
+		}
+	default:
+		var lvs []string
+		for _, t := range res {
+			lvs = append(lvs, f.plainLvalue(t))
+		}
+		// the same variable must not be assigned twice
+		seen := map[string]bool{}
+		for i, l := range lvs {
+			if l != "_" && seen[strings.SplitN(l, "[", 2)[0]] {
+				lvs[i] = "_"
+			}
+			seen[strings.SplitN(l, "[", 2)[0]] = true
+			seen[strings.SplitN(l, ".", 2)[0]] = true
+		}
+		f.line("%s = %s", strings.Join(lvs, ", "), c)
+		g.Feat["multi-value-call"]++
+	}
+}
+
+func (f *fgen) ifStmt() {
+	g := f.g
+	g.Feat["if"]++
+	f.line("if %s {", f.expr(g.tBool, 3, false))
+	f.block(1 + g.pick(3))
+	if g.chance(25) {
+		f.line("} else if %s {", f.expr(g.tBool, 2, false))
+		f.block(1 + g.pick(2))
+	}
+	if g.chance(45) {
+		f.line("} else {")
+		f.block(1 + g.pick(3))
+	}
+	f.line("}")
+}
+
+func (f *fgen) loopBody(l *label, n int) {
+	f.loops = append(f.loops, l)
+	saved := f.inSwitch
+	f.inSwitch = 0
+	f.block(n)
+	f.inSwitch = saved
+	f.loops = f.loops[:len(f.loops)-1]
+}
+
+// emits the loop header with an optional label; the label is only printed if used
+func (f *fgen) withLabel(header string, body func(l *label)) {
+	g := f.g
+	f.nlabel++
+	l := &label{name: fmt.Sprintf("L%d", f.nlabel), isLoop: true}
+	// generate the body into a temporary buffer to know whether the label was used
+	saved := f.w
+	f.w = &strings.Builder{}
+	body(l)
+	inner := f.w.String()
+	f.w = saved
+	if l.used {
+		f.w.WriteString(strings.Repeat("\t", f.ind) + l.name + ":\n")
+	}
+	f.line("%s", header)
+	f.w.WriteString(inner)
+	f.line("}")
+	_ = g
+}
+
+func (f *fgen) forStmt() {
+	g := f.g
+	switch g.pick(4) {
+	case 0, 1:
+		g.Feat["for-3clause"]++
+		i := f.fresh("i")
+		n := 1 + g.pick(5)
+		hdr := fmt.Sprintf("for %s := 0; %s < %d; %s++ {", i, i, n, i)
+		if g.chance(30) {
+			hdr = fmt.Sprintf("for %s := %d; %s > 0; %s -= %d {", i, n+2, i, i, 1+g.pick(2))
+		}
+		f.withLabel(hdr, func(l *label) {
+			f.push()
+			f.declare(&vr{name: i, t: g.tInt, readonly: true})
+			f.loopBody(l, 1+g.pick(4))
+			f.pop()
+		})
+	case 2:
+		g.Feat["for-cond"]++
+		fu := f.useFuel()
+		f.withLabel(fmt.Sprintf("for %s > 0 && %s {", fu, f.expr(g.tBool, 2, false)), func(l *label) {
+			f.ind++
+			f.line("%s--", fu)
+			f.ind--
+			f.loopBody(l, 1+g.pick(4))
+		})
+	default:
+		g.Feat["for-infinite"]++
+		fu := f.useFuel()
+		f.withLabel("for {", func(l *label) {
+			f.ind++
+			f.line("%s--", fu)
+			f.line("if %s <= 0 || %s {", fu, f.expr(g.tBool, 2, false))
+			f.line("\tbreak")
+			f.line("}")
+			f.ind--
+			f.loopBody(l, 1+g.pick(4))
+		})
+	}
+}
+
+func (f *fgen) rangeStmt() {
+	g := f.g
+	switch g.pick(6) {
+	case 0, 1: // range over int; the bound is evaluated once even if its operands change in the body
+		g.Feat["range-int"]++
+		i := f.fresh("i")
+		bound := fmt.Sprintf("%d", 1+g.pick(4))
+		var bv *vr
+		if v := f.pickVar(false, func(v *vr) bool { return v.t == g.tInt && !v.readonly }); v != nil && g.chance(60) {
+			bound = fmt.Sprintf("int(uint(%s) %% %d)", v.name, 2+g.pick(4))
+			bv = v
+		}
+		hdr := fmt.Sprintf("for %s := range %s {", i, bound)
+		if g.chance(20) {
+			hdr = fmt.Sprintf("for range %s {", bound)
+			i = ""
+		}
+		f.withLabel(hdr, func(l *label) {
+			f.push()
+			if i != "" {
+				f.declare(&vr{name: i, t: g.tInt})
+				f.ind++
+				f.line("_ = %s", i)
+				f.ind--
+			}
+			if bv != nil && g.chance(60) {
+				f.ind++
+				f.line("%s += %d", bv.name, 1+g.pick(3))
+				f.ind--
+			}
+			f.loopBody(l, 1+g.pick(3))
+			f.pop()
+		})
+	case 2, 3: // range over slice / array
+		v := f.pickVar(false, func(v *vr) bool { return (v.t.k == tSlice || v.t.k == tArray) && v.t.elem == g.tInt })
+		if v == nil {
+			f.line("_ = 0")
+			return
+		}
+		g.Feat["range-"+map[tkind]string{tSlice: "slice", tArray: "array"}[v.t.k]]++
+		i, e := f.fresh("i"), f.fresh("e")
+		hdr := fmt.Sprintf("for %s, %s := range %s {", i, e, v.name)
+		declI, declE := true, true
+		switch g.pick(4) {
+		case 0:
+			hdr = fmt.Sprintf("for %s := range %s {", i, v.name)
+			declE = false
+		case 1:
+			hdr = fmt.Sprintf("for _, %s := range %s {", e, v.name)
+			declI = false
+		}
+		f.withLabel(hdr, func(l *label) {
+			f.push()
+			f.ind++
+			if declI {
+				f.declare(&vr{name: i, t: g.tInt})
+				f.line("_ = %s", i)
+			}
+			if declE {
+				f.declare(&vr{name: e, t: g.tInt})
+				f.line("_ = %s", e)
+			}
+			f.ind--
+			// mutate the ranged-over collection inside the body
+			if g.chance(50) && declI {
+				f.ind++
+				if v.t.k == tArray {
+					f.line("%s[(%s+1)%%%d] = %s", v.name, i, v.t.n, f.expr(g.tInt, 1, false))
+				} else if !v.appendable {
+					f.line("if %s+1 < len(%s) {", i, v.name)
+					f.line("\t%s[%s+1] = %s", v.name, i, f.expr(g.tInt, 1, false))
+					f.line("}")
+				} else {
+					f.line("%s = append(%s, %s)", v.name, v.name, f.expr(g.tInt, 1, false))
+				}
+				f.ind--
+				g.Feat["range-mutate"]++
+			}
+			f.loopBody(l, 1+g.pick(3))
+			f.pop()
+		})
+	default: // range over string
+		g.Feat["range-string"]++
+		i, c := f.fresh("i"), f.fresh("c")
+		f.withLabel(fmt.Sprintf("for %s, %s := range %s {", i, c, f.expr(g.tStr, 2, false)), func(l *label) {
+			f.push()
+			f.declare(&vr{name: i, t: g.tInt})
+			f.declare(&vr{name: c, t: g.ints[3]}) // rune = int32
+			f.ind++
+			f.line("_, _ = %s, %s", i, c)
+			f.ind--
+			f.loopBody(l, 1+g.pick(3))
+			f.pop()
+		})
+	}
+}
+
+func (f *fgen) switchStmt() {
+	g := f.g
+	g.Feat["switch"]++
+	tagless := g.chance(25)
+	n := 2 + g.pick(3)
+	if tagless {
+		f.line("switch {")
+	} else if g.chance(20) {
+		x := f.fresh("x")
+		f.line("switch %s := %s; %s & 3 {", x, f.nonConstInt(2), x)
+	} else if g.chance(50) {
+		f.line("switch %s & 7 {", f.nonConstInt(2))
+	} else {
+		f.line("switch %s {", f.nonConstInt(2))
+	}
+	used := map[int]bool{}
+	// clause kinds: n cases, optionally a default at a random position
+	kinds := make([]bool, n) // true = default
+	if g.chance(60) {
+		pos := g.pick(n + 1)
+		kinds = append(kinds, false)
+		copy(kinds[pos+1:], kinds[pos:])
+		kinds[pos] = true
+	}
+	f.inSwitch++
+	for i, isDef := range kinds {
+		switch {
+		case isDef:
+			f.line("default:")
+		case tagless:
+			f.line("case %s:", f.nonConstBool(1))
+		case g.chance(15):
+			if v := f.pickVar(false, func(v *vr) bool { return v.t == g.tInt }); v != nil {
+				f.line("case %s + %d:", v.name, g.pick(3))
+				g.Feat["switch-nonconst-case"]++
+				break
+			}
+			fallthrough
+		default:
+			var cs []string
+			for j := 0; j < 1+g.pick(2); j++ {
+				c := g.pick(9) - 2
+				for used[c] {
+					c++
+				}
+				used[c] = true
+				cs = append(cs, fmt.Sprint(c))
+			}
+			f.line("case %s:", strings.Join(cs, ", "))
+		}
+		f.block(1 + g.pick(2))
+		last := i == len(kinds)-1
+		if !last && g.chance(25) {
+			f.line("\tfallthrough")
+			g.Feat["fallthrough"]++
+		} else if g.chance(10) {
+			f.line("\tif %s {", f.expr(g.tBool, 1, false))
+			f.line("\t\tbreak")
+			f.line("\t}")
+			f.ind++
+			f.stmtSimple()
+			f.ind--
+		}
+	}
+	f.inSwitch--
+	f.line("}")
+}
+
+func (f *fgen) stmtSimple() {
+	g := f.g
+	f.line("emit(%d, %s)", g.pick(9), f.expr(g.tInt, 1, false))
+}
+
+func (f *fgen) gotoRegion() {
+	g := f.g
+	g.Feat["goto-region"]++
+	f.nlabel++
+	l := &label{name: fmt.Sprintf("G%d", f.nlabel)}
+	f.line("{")
+	f.ind++
+	f.fwd = append(f.fwd, l)
+	// all statements of the region live in nested blocks so that no declaration is jumped over
+	n := 1 + g.pick(3)
+	for i := 0; i < n; i++ {
+		f.line("{")
+		f.block(1 + g.pick(2))
+		f.line("}")
+		if g.chance(60) {
+			l.used = true
+			f.line("if %s {", f.expr(g.tBool, 2, false))
+			f.line("\tgoto %s", l.name)
+			f.line("}")
+		}
+	}
+	f.fwd = f.fwd[:len(f.fwd)-1]
+	if l.used {
+		f.w.WriteString(strings.Repeat("\t", f.ind-1) + l.name + ":\n")
+		f.stmtSimple()
+	}
+	f.ind--
+	f.line("}")
+}
+
+func (f *fgen) backwardGoto() {
+	g := f.g
+	g.Feat["goto-backward"]++
+	f.nlabel++
+	name := fmt.Sprintf("B%d", f.nlabel)
+	fu := f.useFuel()
+	f.line("{")
+	f.ind++
+	f.w.WriteString(strings.Repeat("\t", f.ind-1) + name + ":\n")
+	f.line("{")
+	// loops entered by goto are invisible to break/continue
+	savedLoops, savedSw := f.loops, f.inSwitch
+	f.loops, f.inSwitch = nil, 0
+	f.block(1 + g.pick(3))
+	f.loops, f.inSwitch = savedLoops, savedSw
+	f.line("}")
+	f.line("%s--", fu)
+	f.line("if %s > 0 && %s {", fu, f.expr(g.tBool, 2, false))
+	f.line("\tgoto %s", name)
+	f.line("}")
+	if g.chance(30) {
+		// a second back edge from a later point: two overlapping goto loops
+		f.line("{")
+		f.loops, f.inSwitch = nil, 0
+		f.block(1)
+		f.loops, f.inSwitch = savedLoops, savedSw
+		f.line("}")
+		f.line("%s--", fu)
+		f.line("if %s > 0 && %s {", fu, f.expr(g.tBool, 1, false))
+		f.line("\tgoto %s", name)
+		f.line("}")
+	}
+	f.ind--
+	f.line("}")
+}
+
+func (f *fgen) escapeStmt() {
+	g := f.g
+	v := f.pickVar(false, func(v *vr) bool { return v.t == g.tInt && v.escapable })
+	if v == nil {
+		v = f.newLocal(g.tInt, f.expr(g.tInt, 1, false))
+		v.escapable, v.unstable = true, true
+	}
+	switch g.pick(6) {
+	case 0, 1: // escapes on one path only
+		f.line("if %s {", f.expr(g.tBool, 2, false))
+		f.line("\tesc(&%s)", v.name)
+		f.line("}")
+		g.Feat["escape-conditional"]++
+	case 2:
+		f.line("esc(&%s)", v.name)
+		g.Feat["escape"]++
+	case 3:
+		f.line("poke(%s)", f.expr(g.tInt, 1, true))
+		g.Feat["poke"]++
+	case 4:
+		p := &vr{name: f.fresh("p"), t: g.ptrInt}
+		f.line("%s := &%s", p.name, v.name)
+		f.line("_ = %s", p.name)
+		f.declare(p)
+		g.Feat["addr-local"]++
+	default:
+		if a := f.pickVar(false, func(v *vr) bool { return v.t.k == tArray && v.t.elem == g.tInt && v.escapable }); a != nil {
+			f.line("esc(&%s[%d])", a.name, g.pick(a.t.n))
+			g.Feat["escape-element"]++
+		} else if s := f.pickVar(false, func(v *vr) bool { return v.t.k == tStruct && v.escapable && hasField(v.t, g.tInt) }); s != nil {
+			f.line("esc(&%s.%s)", s.name, fieldOf(g, s.t, g.tInt))
+			g.Feat["escape-field"]++
+		} else {
+			f.line("emit(%d, peek())", g.pick(9))
+		}
+	}
+}
+
+func (f *fgen) closureStmt() {
+	g := f.g
+	g.Feat["closure"]++
+	c := &vr{name: f.fresh("fn"), t: g.fnII, fields: true} // fields=true marks a non-nil closure
+	a := f.fresh("a")
+	f.line("%s := func(%s int) int {", c.name, a)
+	// body: may read/write captured escapable variables
+	sub := &fgen{g: g, fd: f.fd, w: &strings.Builder{}, scopes: append(append([][]*vr{}, f.scopesCapturable()...), []*vr{{name: a, t: g.tInt}}), budget: 4, ind: f.ind + 1, nvar: f.nvar + 100, depth: 2}
+	sub.hasFuel = false
+	for i := 0; i < 1+g.pick(3); i++ {
+		switch g.pick(4) {
+		case 0:
+			if lv := sub.lvalue(g.tInt); lv != "_" {
+				sub.line("%s += %s", lv, sub.expr(g.tInt, 1, false))
+				continue
+			}
+			sub.line("emit(%d, %s)", g.pick(9), a)
+		case 1:
+			sub.line("emit(%d, %s)", g.pick(9), sub.expr(g.tInt, 2, false))
+		case 2:
+			sub.line("if %s {", sub.expr(g.tBool, 2, false))
+			sub.line("\treturn %s", sub.expr(g.tInt, 2, false))
+			sub.line("}")
+		default:
+			if lv := sub.lvalue(g.tInt); lv != "_" {
+				sub.line("%s = %s", lv, sub.expr(g.tInt, 2, false))
+			}
+		}
+	}
+	sub.line("return %s", sub.expr(g.tInt, 2, false))
+	f.w.WriteString(sub.w.String())
+	f.line("}")
+	f.declare(c)
+	if g.chance(50) {
+		f.line("emit(%d, %s(%s))", g.pick(9), c.name, f.expr(g.tInt, 1, true))
+	} else {
+		f.line("_ = %s", c.name)
+	}
+}
+
+// variables a closure may mention: escapable locals (they are marked unstable) and read-only use of others is avoided
+func (f *fgen) scopesCapturable() [][]*vr {
+	var res [][]*vr
+	for _, sc := range f.scopes {
+		var l []*vr
+		for _, v := range sc {
+			if v.escapable && !v.appendable {
+				l = append(l, v)
+			}
+		}
+		res = append(res, l)
+	}
+	return res
+}
+
+func (f *fgen) sliceStmt() {
+	g := f.g
+	switch g.pick(7) {
+	case 0: // new appendable accumulator
+		v := &vr{name: f.fresh("acc"), t: g.slInt, appendable: true}
+		switch g.pick(3) {
+		case 0:
+			f.line("var %s []int", v.name)
+		case 1:
+			f.line("%s := []int{%s}", v.name, f.expr(g.tInt, 1, false))
+		default:
+			f.line("%s := make([]int, %d)", v.name, g.pick(3))
+		}
+		f.line("_ = %s", v.name)
+		f.declare(v)
+		g.Feat["slice-acc"]++
+	case 1, 2: // append
+		if v := f.pickVar(false, func(v *vr) bool { return v.appendable }); v != nil {
+			if g.chance(25) {
+				if s := f.pickVar(false, func(v *vr) bool { return v.t == g.slInt && !v.appendable }); s != nil {
+					f.line("%s = append(%s, %s...)", v.name, v.name, s.name)
+					g.Feat["append-spread"]++
+					return
+				}
+			}
+			var es []string
+			for i := 0; i < 1+g.pick(2); i++ {
+				es = append(es, f.expr(g.tInt, 2, false))
+			}
+			f.line("%s = append(%s, %s)", v.name, v.name, strings.Join(es, ", "))
+			g.Feat["append"]++
+			return
+		}
+		f.line("_ = 0")
+	case 3: // fixed slice: make / slicing of an array / reslice
+		v := &vr{name: f.fresh("s"), t: g.slInt}
+		if a := f.pickVar(false, func(v *vr) bool { return v.t.k == tArray && v.t.elem == g.tInt && v.escapable }); a != nil && g.chance(50) {
+			lo := g.pick(a.t.n)
+			f.line("%s := %s[%d:%d]", v.name, a.name, lo, lo+g.pick(a.t.n-lo+1))
+			g.Feat["slice-of-array"]++
+		} else if s := f.pickVar(false, func(v *vr) bool { return v.t == g.slInt && !v.appendable }); s != nil && g.chance(50) {
+			if g.chance(50) {
+				f.line("%s := %s[min(%d, len(%s)):]", v.name, s.name, g.pick(3), s.name)
+			} else {
+				if g.chance(80) {
+					f.line("%s := %s[min(%d, len(%s)):min(%s+1, len(%s))]", v.name, s.name, g.pick(2), s.name, f.smallNat(2, false), s.name)
+				} else {
+					f.line("%s := %s[%d:%s]", v.name, s.name, g.pick(2), f.smallNat(2, false)+"+1")
+				}
+			}
+			g.Feat["reslice"]++
+		} else {
+			ln := g.pick(4)
+			f.line("%s := make([]int, %d, %d)", v.name, ln, ln+g.pick(3))
+			g.Feat["make-slice"]++
+		}
+		f.line("_ = %s", v.name)
+		f.declare(v)
+	case 4: // copy
+		d := f.pickVar(false, func(v *vr) bool { return v.t == g.slInt && !v.appendable })
+		s := f.pickVar(false, func(v *vr) bool { return v.t == g.slInt })
+		if d != nil && s != nil {
+			f.line("emit(%d, copy(%s, %s))", g.pick(9), d.name, s.name)
+			g.Feat["copy"]++
+			return
+		}
+		f.line("_ = 0")
+	case 5: // three-index slice / make with dynamic length
+		v := &vr{name: f.fresh("s"), t: g.slInt}
+		if g.chance(50) {
+			f.line("%s := make([]int, %s, 8)", v.name, f.smallNat(2, false))
+			g.Feat["make-dynamic"]++
+		} else if s := f.pickVar(false, func(v *vr) bool { return v.t == g.slInt && !v.appendable }); s != nil {
+			hi := 1 + g.pick(3)
+			if g.chance(80) {
+				f.line("%s := %s[0:min(%d, len(%s)):min(%s+%d, cap(%s))]", v.name, s.name, hi, s.name, f.smallNat(2, false), hi, s.name)
+			} else {
+				f.line("%s := %s[%d:%d:%s+%d]", v.name, s.name, g.pick(2), hi, f.smallNat(2, false), hi)
+			}
+			g.Feat["slice3"]++
+		} else {
+			f.line("%s := []int{1, 2, 3}[:2:3]", v.name)
+		}
+		f.line("_ = %s", v.name)
+		f.declare(v)
+	default: // bytes and strings
+		s := f.expr(g.tStr, 2, false)
+		b := f.fresh("b")
+		f.line("%s := []byte(%s)", b, s)
+		f.line("if len(%s) > 0 {", b)
+		f.line("\t%s[0] = %s", b, f.expr(g.tU8, 1, false))
+		f.line("}")
+		f.line("emits(%d, string(%s))", g.pick(9), b)
+		g.Feat["bytes"]++
+	}
+}
+
+func (f *fgen) ret() {
+	if len(f.fd.res) == 0 {
+		f.line("return")
+		return
+	}
+	var es []string
+	for _, t := range f.fd.res {
+		es = append(es, f.expr(t, 2, false))
+	}
+	f.line("return %s", strings.Join(es, ", "))
+}
+
+func (g *gen) function(idx int) {
+	fd := &fdecl{name: fmt.Sprintf("F%d", idx)}
+	f := g.newFgen(fd)
+	f.budget = 8 + g.pick(18)
+	np := 1 + g.pick(3)
+	var ps []string
+	ptypes := []*ty{g.tInt, g.tInt, g.tInt, g.ints[g.pick(len(g.ints))], g.tBool, g.tStr, g.slInt, g.ptrInt, g.structs[0], g.arrayOf(g.tInt, 3), g.ptrTo(g.structs[0])}
+	for i := 0; i < np; i++ {
+		t := ptypes[g.pick(len(ptypes))]
+		// pointer-to-struct types must be shared objects to compare by identity
+		if t.k == tPtr && t.elem.k == tStruct {
+			found := false
+			for _, o := range fd.params {
+				if o.name == t.name {
+					t, found = o, true
+				}
+			}
+			_ = found
+		}
+		fd.params = append(fd.params, t)
+		v := &vr{name: fmt.Sprintf("q%d", i), t: t}
+		if (t.k == tInt || t.k == tArray || t.k == tStruct) && g.chance(30) {
+			v.escapable, v.unstable = true, true
+		}
+		f.declare(v)
+		ps = append(ps, v.name+" "+t.name)
+	}
+	nr := 1 + g.pick(3)
+	rtypes := []*ty{g.tInt, g.tInt, g.tInt, g.ints[g.pick(len(g.ints))], g.tBool, g.tStr, g.slInt, g.structs[0], g.arrayOf(g.tInt, 3), g.ptrInt}
+	var rs []string
+	for i := 0; i < nr; i++ {
+		t := rtypes[g.pick(len(rtypes))]
+		fd.res = append(fd.res, t)
+		rs = append(rs, t.name)
+	}
+	f.ind = 1
+	f.push()
+	for f.budget > 0 {
+		f.stmt()
+	}
+	f.ret()
+	body := f.w.String()
+	fmt.Fprintf(&g.sb, "func %s(%s) (%s) {\n", fd.name, strings.Join(ps, ", "), strings.Join(rs, ", "))
+	if f.hasFuel {
+		g.sb.WriteString("\tfuel := 12\n")
+	}
+	g.sb.WriteString(body)
+	g.sb.WriteString("}\n\n")
+	g.funcs = append(g.funcs, fd)
 }
